@@ -48,6 +48,17 @@ def times(rng, n, regular=None, start=None):
         step = rng.choice([1, 2, 30, 60, 60, 600, 3600, 86400])
         return [start + i * step for i in range(n)], step
     steps = [rng.choice([1, 2, 7, 30, 60, 61, 90, 600, 3600, 86400, 3 * 86400]) for _ in range(max(0, n - 1))]
+    if n >= 4 and rng.random() < 0.3:
+        # irregular, yet the total span is (n - 1) x the FIRST step (and the mean step equals the first one): an axis that a
+        # "first step x count == span" regularity test takes for evenly sampled
+        d = rng.choice([2, 10, 60, 600, 3600])
+        steps = [d]
+        while len(steps) < n - 1:
+            k = rng.choice([d // 2, d // 2, max(1, d // 10)])
+            steps += [d - k, d + k] if len(steps) + 2 <= n - 1 else [d]
+        head, tail = steps[:1], steps[1:]
+        rng.shuffle(tail)
+        steps = head + tail
     out = [start]
     for s in steps:
         out.append(out[-1] + s)
@@ -203,6 +214,9 @@ def gen_location(rng, maxn=10):
                 lon.append(lon[-1] + rng.choice([1, -1, F(1, 4)])); lat.append(lat[-1])
         lon = [x if x is None or -180 <= x <= 180 else x - 360 * (1 if x > 0 else -1) for x in lon]
         box = list(DEFAULT_BOX)
+    if n >= 3 and rng.random() < 0.25 and lon[0] is not None and lat[0] is not None:
+        # the platform has not moved yet: the first two fixes are identical (a zero-length first hop)
+        lon[1], lat[1] = lon[0], lat[0]
     # keep latitudes inside [-90, 90] and longitudes finite for the geodesic routine
     hops = geodesic_hops(lon, lat)
     rm = None
@@ -216,6 +230,10 @@ def gen_location(rng, maxn=10):
         # a hair below / above a realised hop distance (relative 2^-12: inside the error of spherical or planar
         # approximations of the WGS84 geodesic, far outside float64 rounding); comparisons only, exact rationals decide
         rm = F(float(rng.choice(present)) * (1 + rng.choice([-1, 1]) * 2.0 ** -12))
+        if rng.random() < 0.4 and any(h >= 1 for h in present):
+            # ... or less than a metre below it (the whole-metre part of the hop), as a dyadic number
+            h = rng.choice([h for h in present if h >= 1])
+            rm = F(int(h)) + rng.choice([0, F(1, 4)]) if F(int(h)) + F(1, 4) < h else F(int(h))
     elif r < 0.8:
         rm = F(0)
     else:
